@@ -104,6 +104,10 @@ theorem C10_closure_value_kept_with_error : Skeleton.current.pxResultChecksValid
     regenerated skeleton) — a type assertion alone would turn the nil pointer into a non-nil `error`. -/
 theorem C10_closure_nil_error_stays_nil : Skeleton.current.clNilErrorViaIsNil = true := by decide
 
+/-- The error the responder looks at is THE error the handler / closure returned. `utils.Call` hands back exactly what the function returned — `out = fn.Call(in)` is the only write to its result list (checked against the regenerated skeleton; `utils/call.go` is not among this property's anchors, yet every handler's and every closure's results pass through it). -/
+theorem C10_results_pass_through_utils_call :
+    Skeleton.current.ucResultsUntouched = true := by decide
+
 end Panrpc.Wire
 
 #print axioms Panrpc.Wire.C10_message_exact
@@ -113,3 +117,4 @@ end Panrpc.Wire
 #print axioms Panrpc.Wire.C10_trimSpace_spec
 #print axioms Panrpc.Wire.C10_closure_value_kept_with_error
 #print axioms Panrpc.Wire.C10_closure_nil_error_stays_nil
+#print axioms Panrpc.Wire.C10_results_pass_through_utils_call
